@@ -20,7 +20,7 @@ GOENV = dict(os.environ, GOFLAGS="-mod=mod", GOPROXY="off", GOSUMDB="off", GOTOO
 DRIVER = os.path.join(BUILD, "goskverif")
 CLI = os.path.join(BUILD, "gosk")
 
-CASE_TIMEOUT = int(os.environ.get("VERIF_CASE_TIMEOUT", "40"))
+CASE_TIMEOUT = int(os.environ.get("VERIF_CASE_TIMEOUT", "150"))   # 40 was too tight on a loaded machine (vp check #8: a 185 MB RESB image)
 ALLOWED_AXIOMS = set()  # none expected; stdlib axioms would be listed here by name
 
 
@@ -260,6 +260,27 @@ def _worker(cases_path, out_path, work):
             for i, l in enumerate(f):
                 if i == last:
                     cid = json.loads(l)["id"]
+        # a driver killed while writing a (large) result leaves a partial last line: drop it, the death record replaces it
+        if os.path.exists(out_path):
+            with open(out_path, "rb+") as f:
+                f.seek(0, 2)
+                size = f.tell()
+                if size:
+                    pos = size
+                    tail = b""
+                    while pos > 0:
+                        step = min(1 << 20, pos)
+                        pos -= step
+                        f.seek(pos)
+                        blk = f.read(step)
+                        k = (blk + tail[:0]).rfind(b"\n") if pos + step < size or not blk.endswith(b"\n") else len(blk) - 1
+                        if pos + step == size and blk.endswith(b"\n"):
+                            k = len(blk) - 1
+                        if k >= 0:
+                            f.truncate(pos + k + 1)
+                            break
+                    else:
+                        f.truncate(0)
         with open(out_path, "a") as f:
             f.write(json.dumps({"id": cid, "died": rc, "stderr": deaths[last][1], "calls": []}) + "\n")
         start = last + 1
